@@ -637,7 +637,10 @@ def rule_no_entropy(ctx: Ctx, rid="C01.NO-ENTROPY"):
                     if head in m.imports:
                         srcm, attr = m.imports[head]
                         full = (srcm + ("." + attr if attr else "")) + d[len(head):]
-                    if full in ENTROPY_CALLS or d in ENTROPY_CALLS or full.split(".")[0] in ("random", "secrets", "uuid", "time", "locale"):
+                    # decimal arithmetic rounds according to the calling thread's decimal context (precision, rounding mode):
+                    # a result computed with it depends on what the host application configured
+                    if full in ENTROPY_CALLS or d in ENTROPY_CALLS or full.split(".")[0] in ("random", "secrets", "uuid", "time", "locale",
+                                                                                             "decimal"):
                         if m.rel == BIN and name == "deterministic_choice" and full.startswith("random."):
                             continue
                         hits.append((c, full))
@@ -713,7 +716,7 @@ def _may_return_param(f, names):
 INPLACE_AUG = (ast.Add, ast.BitOr, ast.BitAnd, ast.Sub, ast.BitXor, ast.Mult)
 
 
-def alias_mutations(m: Module, fn, is_src, param_aliases=(), resolve=None, depth=0, obj_methods=()):
+def alias_mutations(m: Module, fn, is_src, param_aliases=(), resolve=None, depth=0, obj_methods=(), deep=False):
     """Sites in `fn` where the object denoted by `is_src(expr)` - or a local name that may alias it - is
     changed in place: a mutator method, a subscript/slice store or delete, an in-place operator, or being
     passed to a helper of the same module/class that does one of these to its parameter.  May-alias
@@ -729,6 +732,8 @@ def alias_mutations(m: Module, fn, is_src, param_aliases=(), resolve=None, depth
             return e.id in al
         if isinstance(e, ast.NamedExpr):
             return denotes(e.value, al)
+        if deep and isinstance(e, (ast.Attribute, ast.Subscript)):
+            return denotes(e.value, al)        # an object reached through a shared one is shared as well
         if isinstance(e, ast.IfExp):
             return denotes(e.body, al) or denotes(e.orelse, al)
         if isinstance(e, ast.BoolOp):
@@ -1063,6 +1068,42 @@ def rule_mutable_defaults(ctx: Ctx, rid="C17.NO-SHARED-DEFAULTS", modules=None, 
     ctx.rep.ok(rid, "src/pyab_experiment (outside sly)", f"{n} mutable parameter defaults found", nontrivial=False)
 
 
+PROCESS_GLOBAL_SETTERS = {"sys.setrecursionlimit", "sys.setswitchinterval", "sys.settrace", "sys.setprofile", "os.chdir", "os.umask",
+                          "os.putenv", "os.unsetenv", "locale.setlocale", "random.seed", "decimal.setcontext", "signal.signal",
+                          "threading.settrace", "threading.setprofile", "warnings.simplefilter", "warnings.filterwarnings",
+                          "gc.disable", "gc.enable", "gc.freeze", "sys.set_int_max_str_digits", "faulthandler.enable", "socket.setdefaulttimeout"}
+
+
+def rule_no_process_globals(ctx: Ctx, rid="C17.NO-PROCESS-GLOBALS"):
+    """No function of the package changes a setting of the whole interpreter process (recursion limit, switch interval,
+    working directory, locale, decimal context, environment ...): whatever one thread sets - and restores - applies to every
+    other thread that is compiling or evaluating at that moment."""
+    n = 0
+    for m in ctx.src.own_modules():
+        for fn in [x for x in ast.walk(m.tree) if isinstance(x, (ast.FunctionDef, ast.AsyncFunctionDef))]:
+            n += 1
+            for c in walk_no_nested(fn):
+                full = None
+                if isinstance(c, ast.Call) and dotted(c.func):
+                    d = dotted(c.func)
+                    head = d.split(".")[0]
+                    full = d
+                    if head in m.imports:
+                        srcm, attr = m.imports[head]
+                        full = (srcm + ("." + attr if attr else "")) + d[len(head):]
+                elif isinstance(c, (ast.Assign, ast.AugAssign, ast.Delete)):
+                    for t in (c.targets if isinstance(c, (ast.Assign, ast.Delete)) else [c.target]):
+                        if isinstance(t, ast.Subscript) and dotted(t.value) == "os.environ":
+                            full = "os.environ[...] ="
+                        if isinstance(t, ast.Attribute) and isinstance(t.value, ast.Call) and (dotted(t.value.func) or "").endswith("getcontext"):
+                            full = "decimal.getcontext().<attr> ="
+                if full in PROCESS_GLOBAL_SETTERS or (full or "").startswith(("os.environ[",  "decimal.getcontext()")):
+                    ctx.rep.bad(rid, f"{m.rel}:{fn.name}", f"`{norm(c)[:70]}` changes a process-wide setting ({full}): another thread that is "
+                                "compiling or evaluating at that moment runs under the changed setting, or has it taken away when this "
+                                "thread restores it", site=m.site(c), text=f"{fn.name}: {full}")
+    ctx.rep.ok(rid, "src/pyab_experiment (outside sly)", f"{n} functions scanned; no process-wide setter")
+
+
 def rule_value_keyed_caches(ctx: Ctx, rid="C01.NO-VALUE-KEYED-CACHE", modules=None, functions=None):
     """functools caches compare their arguments with == / hash: 1, 1.0 and True (and 0, 0.0, -0.0,
     False; (1, 2) and (1.0, 2.0)) share one slot although str() distinguishes them and their types
@@ -1332,6 +1373,12 @@ def rule_sly_runtime_instance_only(ctx: Ctx, rid="C17.SLY-RUNTIME-INSTANCE-ONLY"
                         callee = dotted(x.func).split(".")[1]
                         if m.get_method(c, callee, required=False) is not None:
                             todo.append(callee)
+                # objects reached through the class-level tables (productions, LR items, rule lists) are shared by every parser and
+                # lexer instance: a run-time store into one of them is a store into shared state, whatever local name it goes through
+                shared = ("_rules", "_grammar", "_lrtable", "_token_funcs", "_remapping", "_master_re", "_ignored_tokens", "_prec")
+                for node, how in alias_mutations(m, fn, lambda e, sn=self_name: isinstance(e, ast.Attribute) and dotted(e.value) == sn
+                                                 and e.attr in shared, obj_methods=("__attribute_store__",), deep=True):
+                    probs.append((node, f"store into an object of the class-level tables: {how}"))
                 if probs:
                     x, why = probs[0]
                     ctx.rep.bad(rid, f"{rel}:{cn}.{name}", f"run-time method writes shared state: {why}", site=m.site(x),
